@@ -7,7 +7,7 @@ import EvalFilter.Props.Tables
 namespace EvalFilter.Props.C17
 open EvalFilter EvalFilter.VM EvalFilter.Builtins
 
-variable (M : Machine) (st : RunSt)
+variable (M : Machine)
 
 def resVal : BRes → Option Value
   | { res := .val v, .. } => some v
@@ -17,7 +17,7 @@ def resVal : BRes → Option Value
 
 /-- the comparison used by min, max and between IS the `<=` operator of the language on numbers -/
 theorem C17_le_is_the_operator (a b : Value) (ha : isNumber a = true) (hb : isNumber b = true) :
-    binop M st .lessEqual a b = .ok (.bool (numberLessEqual a b), st) := by
+    binop M .lessEqual a b = .ok (.bool (numberLessEqual a b), []) := by
   cases a <;> cases b <;>
     simp_all [isNumber, binop, intOp, floatOp, vbool, numberLessEqual, toFloat, Except.map] <;>
     congr
